@@ -124,7 +124,7 @@ def regenerate(run):
             ok &= rc == 0
         if os.path.exists(os.path.join(BUILD, "go2deep")):
             rc, out, err = sh([os.path.join(BUILD, "go2deep"), REPO, os.path.join(LEAN, "CacheVerif", "Generated", "Deep.lean")])
-            run.oblige("go2deep: every method body of xsync_map.go / xsync_mapof.go is inside the Go subset of the deep embedding", rc == 0, err.strip())
+            run.oblige("go2deep: every method body of xsync_map.go / xsync_mapof.go, the goroutine and the finalizer of their constructors are inside the Go subset of the deep embedding", rc == 0, err.strip())
             if rc != 0:
                 # keep the Lean project buildable for the other obligations: the generated files stay as they were
                 pass
